@@ -207,7 +207,8 @@ def build_bun(ift, b, d):
         big = ift.DomainTuple.make(tuple(d) + (ift.UnstructuredDomain(b[1]),))
         return ift.ContractionOperator(big, len(d)).adjoint
     if k == "fftshift":      # FFTShiftOperator: an invertible, non-symmetric permutation for odd lengths
-        return ift.FFTShiftOperator(d)
+        rg = tuple(i for i, sp in enumerate(d) if isinstance(sp, ift.RGSpace))     # only RGSpaces can be shifted
+        return ift.FFTShiftOperator(d, spaces=rg)
     if k == "mask":          # MaskOperator: n pixels -> fewer pixels
         return ift.MaskOperator(ift.Field.from_raw(d, np.array(b[1], dtype=bool).reshape(d.shape)))
     raise ValueError(k)
@@ -457,14 +458,19 @@ def cfr(x):
 
 
 def exact_sqrt(v):
-    """True when v is the square of a rational whose numerator and denominator the model can root exactly"""
+    """True when sqrt(v) and 1/sqrt(v) are exact in float64 and in the model (v a power of 4, or v <= 0)"""
     import math
     if not np.isfinite(v):
         return False
     if v <= 0:
         return True
     fr = Fraction(float(v))
-    return math.isqrt(fr.numerator) ** 2 == fr.numerator and math.isqrt(fr.denominator) ** 2 == fr.denominator
+    a, b = math.isqrt(fr.numerator), math.isqrt(fr.denominator)
+    if a * a != fr.numerator or b * b != fr.denominator:
+        return False
+    # the square root AND its inverse must be dyadic (float64 exact): v is a power of 4.  E.g. a sum
+    # simplified to 81/16 has the exact root 9/4, but 1/sqrt = 4/9 is rounded by the implementation.
+    return a & (a - 1) == 0 and b & (b - 1) == 0
 
 
 def read(ift, op):
